@@ -19,6 +19,8 @@
 //   h5 units T n s:u..    h5 nopositions M      h5 noposition T        h5 nodata F       h5 nolink F
 //   h5 notype E
 //   validate      ->  OK <n> <E|W>:<ordinal|unknown|?id>:<s:hex message> ...   (sorted)
+//                     the file is closed, validated first in a ReadOnly session (its first observation ever), then
+//                     in a ReadWrite session; `OK MODE ro=[..] rw=[..]` when the two answers differ
 #include "common.hpp"
 #include <hdf5.h>
 #include <algorithm>
@@ -183,25 +185,49 @@ std::string dim_path(const Ent &a, const std::string &k) {
 
 // ---- commands ----------------------------------------------------------------------------------
 
-std::string do_validate() {
-    need_nix();
-    nix::valid::Result r = nf.validate();
-    std::map<std::string, size_t> ord;
-    for (size_t i = 0; i < ents.size(); i++) ord[ents[i].id] = i;
-    std::vector<std::string> lines;
-    auto one = [&](const char *k, const nix::valid::Message &m) {
-        std::string who;
-        if (m.id == "unknown") who = "unknown";
-        else if (ord.count(m.id)) who = std::to_string(ord[m.id]);
-        else who = "?" + std::to_string(m.id.size());     // an id the script never created
-        lines.push_back(std::string(k) + ":" + who + ":" + enc_str(m.msg));
-    };
-    for (auto &m : r.getErrors()) one("E", m);
-    for (auto &m : r.getWarnings()) one("W", m);
-    std::sort(lines.begin(), lines.end());
-    std::string out = std::to_string(lines.size());
-    for (auto &l : lines) out += " " + l;
+// one validation of the file as it is on disk, in a session opened with `mode`
+std::string validate_in(nix::FileMode mode) {
+    close_raw();
+    if (nix_open) { nf.close(); nix_open = false; }
+    std::string out;
+    try {
+        nix::File f = nix::File::open(fname, mode);
+        try {
+            nix::valid::Result r = f.validate();
+            std::map<std::string, size_t> ord;
+            for (size_t i = 0; i < ents.size(); i++) ord[ents[i].id] = i;
+            std::vector<std::string> lines;
+            auto one = [&](const char *k, const nix::valid::Message &m) {
+                std::string who;
+                if (m.id == "unknown") who = "unknown";
+                else if (ord.count(m.id)) who = std::to_string(ord[m.id]);
+                else who = "?" + std::to_string(m.id.size());     // an id the script never created
+                lines.push_back(std::string(k) + ":" + who + ":" + enc_str(m.msg));
+            };
+            for (auto &m : r.getErrors()) one("E", m);
+            for (auto &m : r.getWarnings()) one("W", m);
+            std::sort(lines.begin(), lines.end());
+            out = std::to_string(lines.size());
+            for (auto &l : lines) out += " " + l;
+        } catch (...) {
+            out = "THROWS:" + classify();
+        }
+        f.close();
+    } catch (...) {
+        out = "OPEN-THROWS:" + classify();
+    }
     return out;
+}
+
+// `validate`: the building session never validates, counts or enumerates anything.  The file is closed and the
+// FIRST observation of it is a validation in a ReadOnly session; then it is validated again in a ReadWrite session.
+// The verdict must not depend on the open mode: equal answers are printed once (the canonical form the model
+// prints), different answers as `MODE ro=[..] rw=[..]`, which no model or specification answer equals.
+std::string do_validate() {
+    std::string ro = validate_in(nix::FileMode::ReadOnly);
+    std::string rw = validate_in(nix::FileMode::ReadWrite);
+    if (ro == rw) return ro;
+    return "MODE ro=[ " + ro + " ] rw=[ " + rw + " ]";
 }
 
 std::string handle(const std::vector<std::string> &t) {
